@@ -157,6 +157,9 @@ def ev(e, env, over=None, log=None, faults=None):
             out[i] = v
         return POISON if bad else out
     if not isinstance(e, p.Expression):
+        if _EXACT[0] and type(e) is float and e == e and e not in (float("inf"), float("-inf")):
+            from fractions import Fraction
+            return Fraction(e)      # exact mode: float constants are the rationals they denote
         return e
     t = type(e)
     if isinstance(e, p.Sum):
